@@ -66,7 +66,7 @@ st('htp_connp_REQ_BODY_DETERMINE', ['C06', 'C09', 'C05', 'C01'], 'framing decisi
 UNITS.append(U(name='htp_connp_REQ_IGNORE_DATA_AFTER_HTTP_0_9', props=['C09', 'C01'], kind='contract', src=['htp_request.c'], enforce='htp_connp_REQ_IGNORE_DATA_AFTER_HTTP_0_9',
                contracts_inc=INC, harness=H % 'htp_connp_REQ_IGNORE_DATA_AFTER_HTTP_0_9', defs=D, min_obl=20, assumes=A[:1],
                sub='HTTP/0.9 drain: consumes the whole chunk, counts it, flags extra data, DATA with the chunk exhausted'))
-UNITS.append(U(name='htp_connp_REQ_IDLE', props=['C04', 'C09', 'C10', 'C01'], kind='contract', src=['htp_request.c', 'htp_list.c'], enforce='htp_connp_REQ_IDLE',
+UNITS.append(U(name='htp_connp_REQ_IDLE', props=['C04', 'C09', 'C10', 'C05', 'C01'], kind='contract', src=['htp_request.c', 'htp_list.c'], enforce='htp_connp_REQ_IDLE',
                replace=['htp_connp_tx_create/contract_site_htp_connp_tx_create', 'htp_tx_state_request_start/contract_site_htp_tx_state_request_start'],
                contracts_inc=INC, harness=H % 'htp_connp_REQ_IDLE', defs={'quick': {'CHUNK_CAP': 4096, 'LCAP': 8}, 'thorough': {'CHUNK_CAP': 1048576, 'LCAP': 64}}, min_obl=30,
                sub='a request transaction is created only when a byte is available; it is appended last with index = old size (arrival order); creation failure is an error with nothing appended',
